@@ -4,18 +4,25 @@
     the same interleaving machine as the wake bitmap; the channel mutex is a modelled SC lock).
     The executable monitor [C13_ok] (coq/W/Monitors.v) states the full property on traces and is
     evaluated on the REAL traces by the check.  Proved here, for every script, number of threads and
-    schedule: the state form of "no accepted message is lost or stranded" and of the close semantics
-    (invariant [ChInv], coq/W/Chan.v).  See docs/layer_w.md for what is missing. *)
+    schedule: the monitor itself on every model run ([C13_trace], coq/W/MonC13.v), and the state form of
+    "no accepted message is lost or stranded" and of the close semantics (invariant [ChInv], coq/W/Chan.v). *)
 From Coq Require Import ZArith List Bool.
-From Stk Require Import Lib.U Gen.SrcWaker W.Waker W.WakerCore W.WakerRefine W.WakerProofs W.WakerGhost W.Chan.
+From Stk Require Import Lib.U Gen.SrcWaker W.Waker W.WakerCore W.WakerRefine W.WakerProofs W.WakerGhost W.Chan W.Monitors W.MonC13.
 Import ListNotations.
 Local Open Scope Z_scope.
 
-(* FULL STATEMENT (trace form, not closed):
-   forall scr sched, C13_ok (flatten (wtrace scr sched)) false = true
-   (each accepted message is forwarded exactly once, in per-sender order, never after the close has
-   completed).  The queue is a FIFO list that is appended under the mutex and taken as a whole under
-   the mutex; what is proved below is that it cannot be left non-empty. *)
+(** FULL STATEMENT, trace form: the executable monitor [C13_ok] (every accepted message forwarded exactly once, never
+    twice, never after the close has completed, in per-sender order; after the close [send] is not accepted and
+    [is_closed] answers true; at quiescence every accepted message has been forwarded or its channel's close has
+    begun) is true on the trace of EVERY run of the model: all scripts, all numbers of threads and channels, all
+    schedules.  Hypothesis: the send commands of the run carry pairwise distinct (channel, message) pairs - the
+    monitor identifies a message by this pair (the check's generators produce distinct messages).
+    [send_keys tr] = the (channel, message) pairs of the [ECmd (CSend c x)] events of [tr], in order. *)
+Theorem C13_trace : forall scr sched,
+  NoDup (send_keys (flatten (wtrace scr sched))) ->
+  C13_ok (flatten (wtrace scr sched)) false = true.
+Proof. exact C13_monitor. Qed.
+Print Assumptions C13_trace.
 
 (** While the channel is open, a non-empty queue always has a wake-up owed to the channel's handler. *)
 Theorem C13_queue_owed : forall st c,
